@@ -25,7 +25,9 @@ def r1_run_xmlsec(run):
     run.check(d is not None and is_true_const(d), "R1",
               fi.qual + "::validate_output-default", "defaults to True",
               "validate_output defaults to %s" % unparse(d), fi.loc())
-    tests = [t for t in cfg.by_kind("test") if "returncode" in unparse(t.ast)]
+    # (test text with named intermediate results expanded)
+    tests = [t for t in cfg.by_kind("test")
+             if "returncode" in unparse(cfg.ctest(t.id))]
     wit = cfg.flag_search(cfg.entry, {}, lambda n, vd: n == cfg.return_exit,
                           assume={"pof.returncode < 0": "T",
                                   "pof.returncode is not None": "T",
